@@ -163,9 +163,21 @@ def uniform_run(spec):
     L, K = B.tableau_rows(c)
     G = ref.RefGroup(L[r:N], K[r:N])
     rng.seed_all(seed)
-    smp = S.sample(n)
-    l, k = B.read_list(smp)
+    per = spec.get('per_call')       # None: one call sample(n); else n // per_call calls sample(per_call) (small requests must be uniform too)
     counts = {}
+    if per is None:
+        smp = S.sample(n)
+        l, k = B.read_list(smp)
+    else:
+        ls, ks = [], []
+        for _ in range(n // per):
+            a, b = B.read_list(S.sample(per))
+            check(a.shape[0] == per, 'sample(%d) returned %d operators' % (per, a.shape[0]), 'sample-count')
+            ls.append(a); ks.append(b)
+        l, k = np.concatenate(ls), np.concatenate(ks)
+        n = len(k)
+        for j in range(0, n, max(1, n // 200)):      # membership with the right sign for a subset (the membership facet covers the rest)
+            check(G.contains(l[j], int(k[j])) == 1, 'sample(%d) returned %s which is not a group element with that sign' % (per, ref.show(l[j], k[j])), 'sample-membership')
     for j in range(n):
         key = tuple(l[j].tolist())
         counts[key] = counts.get(key, 0) + 1
@@ -173,7 +185,8 @@ def uniform_run(spec):
     check(len(counts) <= ncell, 'more distinct samples than group elements', 'sample-membership')
     cs = np.array(list(counts.values()) + [0] * (ncell - len(counts)))
     stat, p = chi2_p(cs, np.full(ncell, n / ncell)) if ncell > 1 else (0.0, 1.0)
-    check(p >= P_REJECT, 'sample() over a group of %d elements: chi-square %.1f p=%.3g, %d elements never sampled' % (ncell, stat, p, ncell - len(counts)), 'sample-not-uniform')
+    check(p >= P_REJECT, 'sample(%s) over a group of %d elements: chi-square %.1f p=%.3g, %d elements never sampled' % (
+        'n' if per is None else '%d) repeated (%d calls' % (per, n // per), ncell, stat, p, ncell - len(counts)), 'sample-not-uniform')
     return {'cells': ncell, 'chi2': stat, 'p': p, 'distinct': set(hash(kx) for kx in counts)}
 
 
@@ -184,10 +197,11 @@ SPECS = [{'N': 1, 'r': 0, 'word': [0, 1], 'signs': [0, 1]}, {'N': 2, 'r': 0, 'wo
 
 def run_uniform(tier, seed, shard, nshards, stats):
     n = 20000 if tier == 'quick' else 400000
-    for i, sp in enumerate(SPECS):
+    specs = SPECS + [dict(sp, per_call=pc_) for sp in SPECS[1:] for pc_ in (1, 2, 3)]
+    for i, sp in enumerate(specs):
         if i % nshards != shard:
             continue
-        spec = dict(sp, n=n, seed=seed * 104729 + i)
+        spec = dict(sp, n=(n if 'per_call' not in sp else n // 4), seed=seed * 104729 + i)
         try:
             info = uniform_run(spec)
         except Mismatch as e:
